@@ -264,6 +264,21 @@ def gen_run(ch, opts):
     return RunCase(case, exprs, pragma, arg, dup)
 
 
+def first_subset_without_match_runs():
+    """hand-laid-out: an element inside a delayed replication that runs zero times in the first subset(s) and several times
+    later -- the first value (level 0) comes from a later subset; also with a subset selector that starts at an empty one"""
+    from refbufr import frame as rframe
+    out = []
+    for compressed_unused, rows in ((False, [[5, 0], [6, 2, 11, 12], [7, 1, 13]]), (False, [[5, 0], [6, 0], [7, 3, 21, 22, 23]])):
+        meta = dict(rframe.default_meta(4))
+        meta.update({'master_table_version': 33, 'n_subsets': len(rows), 'is_compressed': False})
+        case = gmsg.case_from_raws(meta, [1002, 101000, 31001, 1001], subsets=rows)
+        for exprs in (['001001'], ['> 001001', '001002'], ['@[0:2] > 001001', '@[::-1] > 001001']):
+            for pragma, arg in ((0, None), (None, 0), (None, None), (2, None), (4, 1)):
+                out.append(RunCase(case, exprs, pragma, arg, None))
+    return out
+
+
 def flatten_level(l4, level):
     l2 = [pathref.flatten(x) for x in l4]
     if level == 4:
@@ -511,6 +526,11 @@ def run(tier, seed):
     opts = c16.gen_opts(tier)
     n = 600 if tier == 'quick' else 10000
     runner.run_generated(rep, lambda ch: gen_run(ch, opts), check_run, n, workers, stage='execution')
+    for rc in first_subset_without_match_runs():
+        out = check_run(rc)
+        rep.add_case('first_subset_without_match:' + rc.key(), True, ['first_selected_subset_without_a_match'] + sorted(out.classes), None)
+        for clause, detail in out.failures:
+            rep.add_failure('first subset without a match: ' + clause, detail, rc.to_json(), stage='execution')
     runner.run_generated(rep, lambda ch: gen_run(ch, opts), check_cli, 60 if tier == 'quick' else 2500, 4 if tier == 'quick' else workers,
                          stage='command line')
     if tier == 'thorough':
